@@ -441,6 +441,15 @@ func Exec(c *Case) (obs *Obs, term string) {
 					if st.SoftFail && ri == len(po.RRes)-1 && ri < len(st.ROps) && st.ROps[ri].Op == "end" {
 						failed = false
 					}
+					// ... and so is running out of data exactly at a frame boundary (a read timeout
+					// between two frames of a message): nothing was consumed, the next read goes on
+					wire := w.ab
+					if !st.ASends {
+						wire = w.ba
+					}
+					if st.SoftFail && ri == len(po.RRes)-1 && len(wire.Pending()) == 0 && strings.Contains(r.Err, "EOF") {
+						failed = false
+					}
 				}
 			}
 			if failed {
